@@ -9,13 +9,14 @@ MEM_KB = int(os.environ.get("VERIF_KANI_MEM_KB", str(14 * 1024 * 1024)))
 class KH:
     """A registered Kani harness."""
 
-    def __init__(self, name, tier, timeout, claim, bounds, functions, unwind=None):
+    def __init__(self, name, tier, timeout, claim, bounds, functions, unwind=None, args=""):
         self.name = name          # module::function
         self.tier = tier          # 'quick' => both tiers; 'thorough' => thorough only
         self.timeout = timeout
         self.claim = claim
         self.bounds = bounds
         self.functions = functions
+        self.args = args          # extra cargo-kani arguments (e.g. "-Z stubbing"); part of the claim, listed in the evidence
 
 
 def _env():
@@ -57,7 +58,10 @@ def _parse(out):
 
 def run_harness(scratch, h):
     r = Result(h.name, "kani", h.claim, h.bounds, h.functions)
-    rc, out, wall = _run(scratch, "--exact --harness %s" % h.name, h.timeout)
+    rc, out, wall = _run(scratch, "--exact --harness %s %s" % (h.name, h.args), h.timeout)
+    if h.args:
+        r.extra["kani_args"] = h.args
+        r.extra["stubs"] = re.findall(r'- Stub: (.*)', out)
     r.wall_s = wall
     r.queries = 1
     failed, ver, vt, cov = _parse(out)
@@ -97,7 +101,7 @@ def extract_playback(out):
 
 def confirm(scratch, h, r, modules, pid):
     """Replay Kani's counterexample natively (cargo kani playback = ordinary rustc build of the real crate)."""
-    rc, out, _ = _run(scratch, "--exact --harness %s -Z concrete-playback --concrete-playback=print" % h.name,
+    rc, out, _ = _run(scratch, "--exact --harness %s %s -Z concrete-playback --concrete-playback=print" % (h.name, h.args),
                       h.timeout)
     tests, names = extract_playback(out)
     if not tests:
